@@ -90,6 +90,9 @@ func printerReplay(args []string) {
 	if *prop == "C08" || *prop == "C11" {
 		joinEdgeCases(rep)
 	}
+	if *prop == "C17" && *hook == "plain" {
+		hookSurplusProbes(rep)
+	}
 	mon := installModeMonitor(rep, 0) // scripted user programs (call-backs, nested printers, panics) under the mode monitor
 	lib.Parallel(runtime.NumCPU(), func(emit func([]byte)) {
 		_ = lib.TLCLines(os.Stdin, func(raw []byte) { emit(append([]byte(nil), raw...)) })
@@ -109,6 +112,56 @@ func printerReplay(args []string) {
 	}
 	mon.stop("")
 	rep.Finish()
+}
+
+// hookSurplusProbes (C17, hook kind "plain"): error values among the operands a format has no directive for are printed
+// in the %!(EXTRA type=value) report through method dispatch like every other operand: with a hook installed each of
+// them -- at top level, in a slice, in an exported interface field -- is rendered by the hook ("H<v:...>") and by
+// nothing else; an error under Unsafe() bypasses the hook and is enveloped.
+type surplusErr struct{ s string }
+
+func (e *surplusErr) Error() string { return "E(" + e.s + ")" }
+
+func hookSurplusProbes(rep *lib.Report) {
+	e1, e2 := &surplusErr{"zq1"}, &surplusErr{"zq2"}
+	type probe struct {
+		f    string
+		args []interface{}
+		n    int
+	}
+	probes := []probe{
+		{"lit", []interface{}{e1}, 1},
+		{"%d", []interface{}{1, e1, e2}, 2},
+		{"%d|", []interface{}{1, []error{e1}}, 1},
+		{"", []interface{}{struct{ E error }{e1}}, 1},
+		{"%v", []interface{}{e1, e2}, 2},
+		{"%s", []interface{}{e1, "x", []interface{}{e2, 3}}, 2},
+		{"%d", []interface{}{1, map[string]error{"k": e2}}, 1},
+		{"%d", []interface{}{1, e1, redact.Unsafe(e2)}, 1}, // (under Unsafe() the hook is bypassed and the plain text enveloped)
+	}
+	for _, pr := range probes {
+		kase := map[string]interface{}{"kind": "hook-surplus", "format": pr.f, "operands": fmt.Sprintf("%T", pr.args)}
+		rep.Guard("hook:surplus-panic", kase, func() {
+			var sb redact.StringBuilder
+			sb.Printf(pr.f, pr.args...)
+			var w bytes.Buffer
+			_, _ = redact.Fprintf(&w, pr.f, pr.args...)
+			for i, out := range []string{string(redact.Sprintf(pr.f, pr.args...)), string(sb.RedactableString()), w.String()} {
+				rep.AddEval(1)
+				// (what the hook writes for the error is unsafe: with the envelopes deleted its rendering is "H<v:>", "H<s:>" under %s)
+				vis := string(lib.DeleteEnvelopes([]byte(out)))
+				if n := strings.Count(vis, "H<v:>") + strings.Count(vis, "H<s:>"); n != pr.n {
+					rep.Violate("hook:surplus-operand", fmt.Sprintf("format %q, operands %v (route %d): %d error values are printed through method dispatch outside of Unsafe(), the hook rendered %d: %q", pr.f, pr.args, i, pr.n, n, out), kase)
+					return
+				}
+				if strings.Contains(vis, "zq") {
+					rep.Violate("hook:surplus-operand", fmt.Sprintf("format %q (route %d): the text of an error value is in the clear: %q", pr.f, i, out), kase)
+					return
+				}
+			}
+		})
+	}
+	rep.Count("hook_surplus_probes", len(probes))
 }
 
 // C12 on the printer cases: "the result is unaffected by any earlier calls in the process".  Every case of the slice has
